@@ -1,5 +1,5 @@
 SPECIFICATION Spec
 CONSTANTS
   Export = ""
-INVARIANTS NoHandlerWithoutAuth NoReaderWithoutAuth NotListedWithoutAuth ExchangeOnce RejectedIsClosed
+INVARIANTS NoHandlerWithoutAuth NoReaderWithoutAuth NotListedWithoutAuth ExchangeOnce RejectedIsClosed NoVerdictBeforeFrame
 CHECK_DEADLOCK FALSE
